@@ -1,8 +1,51 @@
 CONFIG = dict(
         level='proof',
-        streams=[dict(harness='c06', driver='c06', shrink_field='ops')],
-        rule='scripts over 1-5 real rbtree.Allocators with up to 12 real RBTrees and two raw owners per allocator',
-        exhaustive_note='',
-        assumptions=[],
-        trusted_base=[],
+        streams=[dict(harness='c06', driver='c06', shrink_field='ops', timeout=3600)],
+        search_scale=0.25,
+        rule='scripts over 1-5 real rbtree.Allocators, each shared by up to 12 real RBTrees and two "raw" owners that call malloc/free '
+             'directly: Insert / DeleteWithKey / Erase / CloneDeep (same or other allocator) / Allocator.Clone + CloneShallow of every tree, '
+             'HibernationThreshold 0, size-1, size, size+1, Hibernate / Boot in memory and through Serialize / Deserialize on disk '
+             '(unwritable path, missing file, directory instead of file, truncation at every section boundary +-1 and at random offsets), '
+             'Hibernate twice, every use while hibernated, Used/Size.  After every operation every allocator of the world is re-observed '
+             '(storage cells, gap set, hibernation fields, ids reachable from every tree root); the compressed buffers and the file bytes '
+             'are recorded.  Streams: exhaustive = every sequence of <= 4 (thorough: 5) operations over a 12-letter alphabet of '
+             'allocator-level operations with two owners; boundary = 5 arena shapes (empty, one node, gaps only, mixed, no gaps) x 4 '
+             'threshold positions x memory/disk; clone = mutate one side of a cloned allocator; random = long mixed scripts. '
+             'Non-trivial = at least 2 mallocs and (a free or a real hibernation); distinct = distinct operation list.',
+        exhaustive_note='all sequences of length <= 4 (quick) / <= 5 (thorough) over {malloc by owner 0/1, free of id 1..3 by owner 0/1, free(0), '
+                        'Hibernate, Boot, threshold:=3} on one allocator',
+        assumptions=[
+            'LZ4 (internal/rbtree/lz4hc.c, external C code): for every non-empty uint32 buffer l, CompressUInt32Slice(l) is non-empty and '
+            'DecompressUInt32Slice(CompressUInt32Slice(l), len(l)) = l (Section hypothesis lz4_ok); a compressed block is shorter than 2^63 bytes '
+            '(lz4_small).  The harness decompresses every buffer the implementation produces with the real code and compares (driver counter lz4_buffers).',
+            'The OS file layer: a file holds the bytes written to it; os.File.Read on a regular file returns min(len(buf), remaining) bytes, '
+            '(0, io.EOF) at the end, (0, nil) for an empty buffer.  Files larger than 1 GiB per buffer (one read syscall is capped) are outside the model.',
+            'Go int is 64 bit; lengths are below 2^63; the int64 accumulator of ReadVariableWidthInt is modelled unbounded (it wraps only on hostile '
+            'varints of 10 and more bytes, which no prefix of a file written by Serialize contains).',
+            'malloc picks the first key of a Go map iteration: modelled as an explicit choice argument; the theorems quantify over it and the replay '
+            'validates the id the implementation returned against the model gap set.',
+            'A tree is, for the allocator, an owner that mallocs, frees only its own nodes and writes only its own cells (the red-black algorithm itself is C05).',
+            'Operation sequences in which a refused (panicking) tree operation is recovered from and the tree objects involved are used further are only '
+            'covered as far as the allocator state goes; CloneDeep from a hibernated source allocator into an awake one is excluded (docs/C06.md, observation O1).',
+        ],
+        trusted_base=[
+            'hand-written Gallina model coq/theories/Alloc/{Model,Varint,Serialize}.v of internal/rbtree/rbtree.go Allocator and of go-git utils/binary '
+            'Write/ReadVariableWidthInt, tied to the code by the replay of every harness case (state after every operation, compressed buffers, file bytes)',
+            'internal/rbtree/verif_hooks.go (snapshots) and internal/rbtree/verif_c06.go (VerifMalloc/VerifFree forwarders)',
+        ],
+        level_text='Coq theorems over every state reachable from NewAllocator by any interleaving of malloc (any gap choice) / free / cell writes of any '
+                   'number of owners, threshold changes, Hibernate, Boot and Clone: an id is never handed out while live and never 0 (C06_malloc_fresh), '
+                   'owners are pairwise disjoint and hold only live cells, also across hibernation (C06_no_alias, C06_frame), Used() = owned + 1 and live = owned '
+                   '(C06_used), Boot(Hibernate(a)) restores cells, gap set and threshold at or above the threshold (C06_boot_hibernate), smaller and empty '
+                   'allocators are untouched, every use while hibernated is a panic that changes nothing (C06_refused*), and through the file: '
+                   'Boot is refused while serialized, every strict prefix of the file is rejected, the whole file boots into the same arena whatever a failed '
+                   'attempt left behind (C06_disk_roundtrip, C06_file_roundtrip, C06_truncated, C06_varint_*).  All closed under the global context; '
+                   'LZ4 enters as two Section hypotheses.',
+        level_note='Proved about the Gallina model, not about the Go text: the tie is the correspondence replay (no disagreement on any generated case). '
+                   'Clone independence is true by construction in a pure model; C06_clone_frame states what is copied and that each side evolves by its own '
+                   'operations only; that the Go copies do not share a slice or map is carried by the replay (mutate one copy, re-observe all; the mutants '
+                   '"Clone shares the gap map / the storage" are caught).  LZ4 and the OS are assumptions.  The MaxUint32 size-limit panic of malloc is '
+                   'modelled and covered by the proofs but cannot be exercised (96 GB arena).  Tree-level partial effects of a refused operation are not modelled.',
+        technique='machine-checked proof in Coq over a Gallina model of the allocator state machine + replay of the real allocator/trees through the extracted model '
+                  'and extracted property oracles',
     )
